@@ -326,6 +326,10 @@ func (s *seq) verify(touched *ent, opname string) {
 	n := len(pool)
 	var cm [maxLive + maxHist + maxAlias][maxLive + maxHist + maxAlias]int8
 	var eq [maxLive + maxHist + maxAlias][maxLive + maxHist + maxAlias]bool
+	var strs [maxLive + maxHist + maxAlias]string
+	for i, x := range pool {
+		strs[i] = x.v.String()
+	}
 	for i, x := range pool {
 		for j, y := range pool {
 			s.l.evals++
@@ -334,6 +338,12 @@ func (s *seq) verify(touched *ent, opname string) {
 			eq[i][j] = e
 			if e != want {
 				s.violation(kd.name+":equal-vs-model", fmt.Sprintf("after %s: Equal(%s, %s)=%v but model equality is %v", opname, x.describe(kd), y.describe(kd), e, want))
+				return
+			}
+			// The text form is faithful: values that differ are written
+			// differently, equal ones alike.
+			if xs, ys := strs[i], strs[j]; (xs == ys) != want {
+				s.violation(kd.name+":string:faithful", fmt.Sprintf("after %s: %s and %s (model equality %v) are written %q and %q", opname, x.describe(kd), y.describe(kd), want, xs, ys))
 				return
 			}
 			if i != j {
